@@ -470,6 +470,26 @@ func (g *G) service(name string, before, params []string) cfg.Service {
 		if n > 0 || g.chance(0.2) {
 			s.Args = g.args(n, before, params)
 		}
+		// a literal and the string that prints the same (8080 / "8080", true / "true"): they must stay different things
+		if g.chance(0.3) {
+			l := g.literal()
+			twin := l.Text
+			switch l.Kind {
+			case "null":
+				twin = choose(g, "<nil>", "nil", "null", "~")
+			case "float":
+				twin = choose(g, l.Text, fmt.Sprint(l.F))
+			}
+			if special(twin) || strings.Contains(twin, "%") {
+				twin = "7"
+				l = cfg.Int(7)
+			}
+			if g.chance(0.5) {
+				s.Args = append(s.Args, l, cfg.Str(twin))
+			} else {
+				s.Args = append(s.Args, cfg.Str(twin), l)
+			}
+		}
 		if strings.HasSuffix(*s.Constructor, "NewErr") {
 			if o.Fail && g.chance(0.3) {
 				s.Args = append([]cfg.Val{cfg.Str("fail")}, s.Args...)
